@@ -955,8 +955,8 @@ func c16Main(args []string) int {
 		fmt.Fprintf(&b, "Definition MM := Eval vm_compute in flat3 (model_mismatches %d cases).\n", lo)
 		fmt.Fprintf(&b, "Definition SM := Eval vm_compute in flat2 (spec_mismatches %d cases).\n", lo)
 		fmt.Fprintf(&b, "Definition PV := Eval vm_compute in flat3 (property_violations %d cases).\n", lo)
-		b.WriteString("Definition NG := Eval vm_compute in Z.of_nat (count_guarded cases).\nDefinition CC := Eval vm_compute in case_classes cases.\n")
-		b.WriteString("Print MM.\nPrint SM.\nPrint PV.\nPrint NG.\nPrint CC.\n")
+		b.WriteString("Definition NG := Eval vm_compute in Z.of_nat (count_guarded cases).\nDefinition PG := Eval vm_compute in Z.of_nat (count_pguarded cases).\nDefinition CC := Eval vm_compute in case_classes cases.\n")
+		b.WriteString("Print MM.\nPrint SM.\nPrint PV.\nPrint NG.\nPrint PG.\nPrint CC.\n")
 		name := fmt.Sprintf("%s/c16_cases_%d.v", *outDir, s)
 		if err := os.WriteFile(name, b.Bytes(), 0644); err != nil {
 			fmt.Fprintln(os.Stderr, err)
